@@ -440,6 +440,60 @@ def script_requests(r, per_font, only_fonts=None):
     return groups
 
 
+def _opts(r, n, native_only=False):
+    cl = input_clusters(r, n, r.choice([0, 0, 1, 1, 3]))
+    d = None if native_only else r.choice(DIRS)
+    return cl, d
+
+
+def markrun_requests(r, per_font, ncorpus, scripts=None):
+    """base + 2..6 combining marks of the script (see scriptgen.mark_run_text), distinct or gapped input clusters, all
+    directions, levels 0/1 (every 8th request level 2), on the synthetic and corpus fonts of every script"""
+    import scriptgen
+    groups = []
+    for name in scripts or sorted(scriptgen.C08.SCRIPTS):
+        ro = scriptgen.roles(name)
+        for fid, reg, c, _ in scriptgen.fonts_for(name, r, ncorpus):
+            reqs = []
+            for _ in range(per_font):
+                text = "".join(map(chr, scriptgen.mark_run_text(r, ro)))
+                cl, d = _opts(r, len(text))
+                lv = 2 if r.chance(1, 8) else r.below(2)
+                flags = r.choice([0, 0, 4, 3, 0x10, 0x14])
+                ko = r.chance(1, 6)
+                ln = c.shape_line(fid, text=text, clusters=cl, dir=d, level=lv, flags=flags, feats=[KERN_OFF] if ko else [])
+                reqs.append((ln, (c.name, cl, d, lv, ko)))
+            groups.append((reg, reqs))
+    return groups
+
+
+def special_requests(r, exh_len, grid, per_font, ncorpus, scripts=None):
+    """role sequences (scriptgen.special_symbols): every order up to `exh_len` symbols x `grid` of (level, flags) in the
+    guessed (native) direction with consecutive clusters, then `per_font` random longer ones with random options"""
+    import scriptgen
+    groups = []
+    for name in scripts or sorted(scriptgen.C08.SCRIPTS):
+        ro = scriptgen.roles(name)
+        for fid, reg, c, _ in scriptgen.fonts_for(name, r, ncorpus):
+            sym = scriptgen.special_symbols(r, ro)
+            reqs = []
+            for seq in scriptgen.all_orders([cp for _, cp in sym], exh_len):
+                text = "".join(map(chr, seq))
+                cl = list(range(len(text)))
+                for lv, flags in grid:
+                    reqs.append((c.shape_line(fid, text=text, clusters=cl, dir=None, level=lv, flags=flags, feats=[]),
+                                 (c.name, cl, None, lv, False)))
+            for _ in range(per_font):
+                text = "".join(map(chr, scriptgen.special_random_text(r, ro, sym)))
+                cl, d = _opts(r, len(text))
+                lv = r.below(2)
+                flags = r.choice([4, 4, 0, 0, 0x14, 7])
+                reqs.append((c.shape_line(fid, text=text, clusters=cl, dir=d, level=lv, flags=flags, feats=[]),
+                             (c.name, cl, d, lv, False)))
+            groups.append((reg, reqs))
+    return groups
+
+
 def check_shape(meta, glyphs):
     """C02 oracles on one shaping; returns a list of (kind, detail)"""
     name, cl_in, d, lv, ko = meta
@@ -472,6 +526,26 @@ def script_search(ctx, shim, r, per_font):
                             "level 0 or 1 / flags / kern=0")
 
 
+def markrun_search(ctx, shim, r, per_font, ncorpus):
+    return run_shape_groups(ctx, shim, markrun_requests(r, per_font, ncorpus), "shape-mark-runs",
+                            "per script (28 scripts of C08.SCRIPTS): 1-3 runs of base + 2-6 combining marks drawn from the script's own "
+                            "marks, the mark code points written in its shaper's source over-represented (e.g. the Arabic modifier "
+                            "combining marks), a small working set per text so that several marks of one class meet, now and then a "
+                            "generic mark / CGJ / joiner; synthetic fonts whose GSUB names the script tag (old spec, new spec, USE; with "
+                            "and without U+25CC) plus corpus fonts of the script; distinct / gapped / partly repeated input clusters, "
+                            "5 directions, levels 0/1 (1 in 8: level 2), flags")
+
+
+def special_search(ctx, shim, r, exh_len, grid, per_font, ncorpus):
+    return run_shape_groups(ctx, shim, special_requests(r, exh_len, grid, per_font, ncorpus), "shape-special-seq",
+                            f"per script: EVERY order of up to {exh_len} symbols over the script's roles (RA, virama(s), ZWJ, ZWNJ, nukta, "
+                            f"two consonants, a matra; roles from the Unicode names / combining classes) at (level, flags) in {grid}, "
+                            "guessed direction, consecutive clusters (flag 4 = PRESERVE_DEFAULT_IGNORABLES and fonts with a space glyph, "
+                            "so that joiners survive); then random sequences of 4-7 characters over the roles, other consonants / matras "
+                            "of the script and the code points written in the shaper's source, random direction / level 0,1 / flags / "
+                            "input clusters; same fonts as shape-mark-runs")
+
+
 def shaper_class(q):
     """which family of shapers the text of a shape request goes to (by the blocks of its characters)"""
     cps = [int(t.split(":")[0], 16) for t in q.split()[10].split(",") if t and t != "-"]
@@ -482,6 +556,60 @@ def shaper_class(q):
     if any(0x1100 <= c <= 0x11FF or 0xAC00 <= c <= 0xD7FF for c in cps): return "hangul-shaper"
     if any(c >= 0x0D80 and not (0x2000 <= c <= 0x2BFF) and not (0xE000 <= c <= 0xF8FF) for c in cps): return "use-or-default-shaper"
     return "default-shaper"
+
+
+INDIC_BLOCKS = {0x0900: "devanagari", 0x0980: "bengali", 0x0A00: "gurmukhi", 0x0A80: "gujarati", 0x0B00: "oriya",
+                0x0B80: "tamil", 0x0C00: "telugu", 0x0C80: "kannada", 0x0D00: "malayalam"}
+
+
+_prebase = {}
+
+
+def prebase_matras(shim, name):
+    """the characters of an Indic script that its shaper places BEFORE the consonant they follow (left matras and the left
+    parts of two-part vowels), found by probing the crate: <KA, x> is shaped at level 2 (no cluster merging) on a synthetic
+    font of the script; x is pre-base iff the first glyph that comes out carries x's cluster"""
+    if name in _prebase:
+        return _prebase[name]
+    import scriptgen
+    ro = scriptgen.roles(name)
+    rec, cmap = scriptgen.synth_font(name, scriptgen.OT_TAGS[name][0], dotted=True)
+    ka = scriptgen.special_symbols(vlib.Rng(0, "probe"), ro)
+    ka = dict(ka).get("C1", ro["cons"][0])
+    lines = [f"font PB {scriptgen.fontbuild.hexfont(rec)}"]
+    for m in ro["marks"]:
+        lines.append(f"shape PB l - - 0 2 - - - {ka:x}:0,{m:x}:1")
+    o = vlib.run_groups(shim, [lines], nproc=1)[0]
+    res = set()
+    for m, rep in zip(ro["marks"], o[1:]):
+        gl = parse_shape(rep)
+        if gl and gl[0][1] == 1:
+            res.add(m)
+    _prebase[name] = res
+    return res
+
+
+def request_class(shim, q):
+    """shaper_class, with the Indic blocks split into the class of the known finding F13 and the rest.
+    F13 (class 'indic-shaper') is the Indic shaper's handling of pre-base (left) matras: initial reordering sorts them to
+    the front of the syllable and leaves the clusters before the base to final reordering, which merges only from the
+    matra's final position to the base.  Its class is 'Indic text that contains a pre-base matra (or a two-part vowel
+    with a left part)', decided by probing the crate (prebase_matras).  Indic text without such a character is
+    'indic-shaper:no-prebase-matra' and is NOT covered by the known finding."""
+    c = shaper_class(q)
+    if c != "indic-shaper":
+        return c
+    cps = [int(x.split(":")[0], 16) for x in q.split()[10].split(",")]
+    for cp in cps:
+        name = INDIC_BLOCKS.get(cp & ~0x7F)
+        if name and cp in prebase_matras(shim, name):
+            return "indic-shaper"
+    return "indic-shaper:no-prebase-matra"
+
+
+def _font_name(reg):
+    t = reg.split()
+    return t[2] if t[0] == "fontfile" else "synthetic:" + t[1]
 
 
 def run_shape_groups(ctx, shim, groups, stream, what):
@@ -505,19 +633,20 @@ def run_shape_groups(ctx, shim, groups, stream, what):
                 dist["kern_off"] += 1
                 if meta[2] in ("r", "b"): dist["backward+kern_off"] += 1
             for kind, detail in check_shape(meta, gl):
-                key = (kind, "kern=0" if meta[4] else "kern", meta[2] in ("r", "b"), shaper_class(q)) if stream == "shape-clusters" else (kind, f"level {meta[3]}", shaper_class(q))
+                cls = request_class(shim, q)
+                key = (kind, "kern=0" if meta[4] else "kern", meta[2] in ("r", "b"), cls) if stream == "shape-clusters" else (kind, f"level {meta[3]}", cls)
                 found.setdefault(key, []).append((len(q), reg, q, meta, rep, detail))
     for key, lst in sorted(found.items(), key=lambda kv: str(kv[0])):
         lst.sort(key=lambda x: x[0])
         _, reg, q, meta, rep, detail = lst[0]
         ctx.violation(f"shape(): output clusters violate C02 ({key[0]}, {key[1]}, {(('backward' if key[2] else 'forward/guessed') + ' direction, ' + key[3]) if stream == 'shape-clusters' else stream + ' ' + str(key[2])}; "
-                      f"{len(lst)} shapings, {len(set(x[1] for x in lst))} fonts): {detail}; input clusters {meta[1]}, "
+                      f"{len(lst)} shapings, {len(set(x[1] for x in lst))} fonts): {detail}; text {q.split()[10]}, input clusters {meta[1]}, "
                       f"output clusters {[g[1] for g in parse_shape(rep)]}",
                       {"stage": "search", "stream": stream, "font_line": reg, "request": q, "case": meta[0],
                        "input_clusters": meta[1], "dir": meta[2], "level": meta[3], "kern_off": meta[4], "kind": key[0],
-                       "class": shaper_class(q),
-                       "observed": rep[:3000], "fonts": sorted(set(x[1].split()[2] for x in lst))[:40], "count": len(lst),
-                       "more_examples": [{"font": x[1].split()[2], "request": x[2], "reply": x[4][:600]} for x in lst[1:6]]})
+                       "class": key[-1],
+                       "observed": rep[:3000], "fonts": sorted(set(_font_name(x[1]) for x in lst))[:40], "count": len(lst),
+                       "more_examples": [{"font": _font_name(x[1]), "request": x[2], "reply": x[4][:600]} for x in lst[1:6]]})
     ctx.note_search(stream, total, nontriv, crashed_or_aborted=crashed, distribution=dist,
                     violations_by_kind={str(k): len(v) for k, v in found.items()},
                     rule=what + "; oracles: output cluster values ⊆ input values; the smallest input value is "
@@ -637,7 +766,10 @@ def run(ctx):
         "theorems are about the Lean model of the buffer primitives (Buf.lean) and of form_clusters / ensure_native_direction / "
         "reverse_graphemes / the final reverse (Cluster.lean); the tie to the crate is the cluster-prims correspondence stream",
         "the shapers' own reordering code (Indic, USE, Khmer, Myanmar, Thai, Hangul, Arabic mark reordering, morx rearrangement) is "
-        "not modelled: for it the property rests on the shape()-level search over the corpus fonts",
+        "not modelled: for it the property rests on the shape()-level search over the corpus fonts and the per-script synthetic fonts "
+        "(random strings, structured mark runs, exhaustive short role sequences)",
+        "known finding F13 is matched only by Indic text that contains a pre-base matra (class 'indic-shaper', decided by probing the "
+        "crate); Indic text without one is class 'indic-shaper:no-prebase-matra' and is a violation",
         "the kern/kerx driver bracket (D3) is modelled by the C07 core; here it is covered by the search with kerning disabled on backward text",
     ]
     ctx.regen()
@@ -648,6 +780,9 @@ def run(ctx):
     shape_search(ctx, shim, ctx.rng("shape"), ctx.budget(300, 2128), ctx.budget(3, 6), not ctx.quick)
     synth_search(ctx, shim, ctx.rng("synth"), ctx.budget(40, 400))
     script_search(ctx, shim, ctx.rng("script"), ctx.budget(400, 12000))
+    markrun_search(ctx, shim, ctx.rng("mark-runs"), ctx.budget(300, 6000), ctx.budget(2, 6))
+    special_search(ctx, shim, ctx.rng("special"), ctx.budget(3, 4), [(1, 4), (1, 0), (0, 4)] if ctx.quick else [(1, 4), (1, 0), (0, 4), (0, 0)],
+                   ctx.budget(150, 3000), ctx.budget(2, 6))
 
 
 def replay(ctx, rp):
@@ -661,7 +796,7 @@ def replay(ctx, rp):
         d = check_trace(rp["request"], a)
         print("deviations:", d)
         return 1 if (d or canon(a) != b) else 0
-    if rp.get("stream") in ("shape-clusters", "shape-script-random"):
+    if rp.get("stream") in ("shape-clusters", "shape-script-random", "shape-mark-runs", "shape-special-seq"):
         o = vlib.run_groups(shim, [[rp["font_line"], rp["request"]]], nproc=1)[0]
         print("font   :", rp["font_line"]); print("request:", rp["request"]); print("reply  :", o[1][:3000])
         gl = parse_shape(o[1])
